@@ -46,6 +46,7 @@ type Mutant struct {
 	Edits  []Edit   `json:"edits"` // further replacements (same or other files)
 	Config string   `json:"config"`
 	Canary bool     `json:"canary"`
+	Benign bool     `json:"benign"` // behaviour-preserving edit: no rule of the property may newly fire
 	Note   string   `json:"note"`
 }
 
@@ -506,7 +507,7 @@ func finishProp(prop, tier string, seed int, jobs, mjobs []*job, mutOf map[*job]
 		Fired      []string
 	}
 	var mr []mres
-	mKilled, mStale, mSurv := 0, 0, 0
+	mKilled, mStale, mSurv, mFalse, mQuiet := 0, 0, 0, 0, 0
 	canaryFailed := false
 	for _, j := range mjobs {
 		m := mutOf[j]
@@ -534,18 +535,28 @@ func finishProp(prop, tier string, seed int, jobs, mjobs []*job, mutOf map[*job]
 						match = true
 					}
 				}
+				if m.Benign {
+					match = rulePrefix(o.Rule) == prop
+				}
 				if match {
 					fired = appendUniq(fired, o.Rule+"@"+o.Site)
 				}
 			}
-			if len(fired) > 0 {
+			switch {
+			case m.Benign && len(fired) > 0:
+				st = "FALSE-ALARM (benign edit)"
+				mFalse++
+			case m.Benign:
+				st = "quiet (benign edit)"
+				mQuiet++
+			case len(fired) > 0:
 				st = "killed"
 				mKilled++
-			} else {
+			default:
 				mSurv++
 			}
 		}
-		if st != "killed" && st != "stale" && m.Canary {
+		if st != "killed" && st != "stale" && m.Canary && !m.Benign {
 			canaryFailed = true
 			lines = append(lines, fmt.Sprintf("UNDECIDED property=%s rule=%s reason=canary mutant %s was not detected (%s): the rule lost its sensitivity",
 				prop, strings.Join(m.Expect, ","), m.ID, st))
@@ -617,8 +628,8 @@ func finishProp(prop, tier string, seed int, jobs, mjobs []*job, mutOf map[*job]
 		}
 	}
 
-	fmt.Printf("== %s tier=%s configs=%d obligations=%d ok=%d known=%d violated=%d undecided=%d mutants=%d/%d killed (%d stale)\n",
-		prop, tier, len(cfgNames), len(obls), nOK, nKnown, nViol, nUndec, mKilled, len(mr)-mStale, mStale)
+	fmt.Printf("== %s tier=%s configs=%d obligations=%d ok=%d known=%d violated=%d undecided=%d mutants=%d/%d killed (%d stale) benign=%d quiet/%d false-alarm\n",
+		prop, tier, len(cfgNames), len(obls), nOK, nKnown, nViol, nUndec, mKilled, len(mr)-mStale-mQuiet-mFalse, mStale, mQuiet, mFalse)
 	rs := make([]string, 0, len(ruleSites))
 	for k := range ruleSites {
 		rs = append(rs, k)
@@ -628,7 +639,7 @@ func finishProp(prop, tier string, seed int, jobs, mjobs []*job, mutOf map[*job]
 		fmt.Printf("   %-8s sites=%-3d %s\n", k, ruleSites[k], ruleDesc(k))
 	}
 	for _, m := range mr {
-		if m.Status != "killed" || *flagVerbose {
+		if (m.Status != "killed" && m.Status != "quiet (benign edit)") || *flagVerbose {
 			fmt.Printf("   mutant %-28s %s %v\n", m.ID, m.Status, m.Fired)
 		}
 	}
